@@ -188,6 +188,18 @@ func TestVerifC07Amf0(t *testing.T) {
 	fams := []*vC07Fam{
 		{name: "amf0-nested-objects", dec: "amf0.any", build: vC07AmfNest, key: "amf0-quadratic-nesting", cost: "amf0.any"},
 		{name: "amf0-flat-object", dec: "amf0.any", build: vC07AmfFlat, cost: "amf0.any"},
+		// one big element first, then many small ones
+		{name: "amf0-big-string-then-props", dec: "amf0.any", cost: "amf0.any", build: func(n int) []byte {
+			l := n / 2
+			if l > 60000 {
+				l = 60000
+			}
+			out := append([]byte{3, 0, 1, 0x73, 2, byte(l >> 8), byte(l)}, make([]byte, l)...)
+			for len(out)+7 <= n {
+				out = append(out, 0, 1, 0x61, 5)
+			}
+			return append(out, 0, 0, 9)
+		}},
 		{name: "amf0-long-string", dec: "amf0.any", build: func(n int) []byte {
 			out := []byte{2, byte((n - 3) >> 8), byte(n - 3)}
 			return append(out, make([]byte, n-3)...)
